@@ -31,4 +31,8 @@ CASES = [
     dict(name="delitem-aliases-live-name-list", file="field/base.py", expect="R07.7", old="            for k in key:\n                k = self.field_names[k] if isinstance(key, int) else k\n                names.append(k)", new="            names = key"),
     dict(name="delete-fields-iterates-while-deleting", file="field/base.py", expect="R07.7", old="        del self[self.field_names if select is None else select]", new="        for name in self.field_names if select is None else select:\n            del self[name]"),
     dict(name="twin-delete-fields-iterates-copy", kind="twin", file="field/base.py", old="        del self[self.field_names if select is None else select]", new="        for name in list(self.field_names if select is None else select):\n            del self[name]"),
+    dict(name="revert-provenance-of-cached-raw-field", file="field/cond_srf.py", expect="R07.8", old="            and self.krige[krige_name[1]] is self._krige_var_ref\n", new=""),
+    dict(name="provenance-never-updated", file="field/cond_srf.py", expect="R07.8", old="            self._krige_var_ref = krige_var\n", new="            self._krige_var_ref = None\n"),
+    dict(name="provenance-updated-on-reuse-too", file="field/cond_srf.py", expect="R07.8",
+         old="            self.post_field(rawkrige, name[2], False, save[2])\n            self._krige_var_ref = krige_var\n", new="            self.post_field(rawkrige, name[2], False, save[2])\n        self._krige_var_ref = krige_var\n"),
 ]
